@@ -149,6 +149,17 @@ func (e *Explorer) done() {
 
 func (e *Explorer) addFinding(f *Finding) {
 	key := f.Kind + "|" + f.ID
+	// observations whose name starts with '@' are discriminators: part of the identity of a finding
+	var dn []string
+	for n := range f.Observe {
+		if strings.HasPrefix(n, "@") {
+			dn = append(dn, n)
+		}
+	}
+	sort.Strings(dn)
+	for _, n := range dn {
+		key += "|" + n + "=" + f.Observe[n]
+	}
 	e.mu.Lock()
 	defer e.mu.Unlock()
 	if old, ok := e.findings[key]; ok {
